@@ -129,6 +129,25 @@ def container_flows():
     return out
 
 
+def interpolation_faults():
+    """an undefined name, an operand of the wrong type or a missing attribute INSIDE an interpolated string, on either side
+    of every operator: rejected, or the program runs (what is checked must be what Python will evaluate)"""
+    out = []
+    pre = "class P(def x: Int)\n    def m(fin self) -> Int => self.x\ndef a := 3\ndef b := 4\ndef s := \"t\"\ndef p := P(1)\n"
+    ok_ops = ["+", "-", "*", "<", "<=", ">", ">=", "!=", "="]
+    faults = {"undefined-name": "zz9", "wrong-type": "s", "missing-attribute": "p.nofield", "missing-method": "p.nomethod()"}
+    for op in ok_ops:
+        for fk, fx in faults.items():
+            out.append(("interp/%s/right/%s" % (op, fk), pre + "print(\"v={a %s %s}\")\n" % (op, fx)))
+            out.append(("interp/%s/left/%s" % (op, fk), pre + "print(\"v={%s %s a}\")\n" % (fx, op)))
+            out.append(("interp/%s/second-interpolation/%s" % (op, fk), pre + "print(\"v={a} w={b %s %s}\")\n" % (op, fx)))
+        out.append(("interp/%s/fine" % op, pre + "print(\"v={a %s b}\")\n" % op))
+    for fk, fx in faults.items():
+        out.append(("interp/alone/%s" % fk, pre + "print(\"v={%s}\")\n" % fx))
+        out.append(("interp/call-argument/%s" % fk, pre + "def g(z: Int) -> Int => z\nprint(\"v={g(%s)}\")\n" % fx))
+    return out
+
+
 def arity_flows():
     """calls with one argument dropped or added, for every kind of callee and 1-3 declared parameters (the last one with
     and without a default): either rejected, or the program runs"""
@@ -152,6 +171,31 @@ def arity_flows():
     return out
 
 
+def inheritance_flows():
+    """a member (method, field) that several parents define with DIFFERENT types, parents written in every order, the
+    member used at each of the types: whichever definition the checker believes in must be the one Python finds"""
+    out = []
+    tys = {"Int": ("2", "{x} + 1"), "Str": ("\"s\"", "{x} + \"t\""), "Bool": ("True", "{x} and True")}
+    names = ["Ka", "Kb", "Kc"]
+    for (t1, t2) in (("Int", "Str"), ("Str", "Int"), ("Bool", "Str"), ("Str", "Bool")):
+        for order in ((0, 1), (1, 0)):
+            for use_ty in (t1, t2):
+                for kind in ("method", "field"):
+                    decls = []
+                    for n, t in zip(names, (t1, t2)):
+                        if kind == "method":
+                            decls.append("class %s\n    def m(fin self) -> %s => %s\n" % (n, t, tys[t][0]))
+                        else:
+                            decls.append("class %s\n    def m: %s := %s\n" % (n, t, tys[t][0]))
+                    ps = ", ".join(names[i] for i in order)
+                    acc = "o.m()" if kind == "method" else "o.m"
+                    body = "class Kz: %s\n    def z: Int := 0\ndef o := Kz()\ndef r: %s := %s\nprint(%s)\n" % (ps, use_ty, acc, tys[use_ty][1].format(x="r"))
+                    out.append(("inherit/%s/%s-%s/order=%s/use=%s" % (kind, t1, t2, "".join(map(str, order)), use_ty), "".join(decls) + body))
+                    # the parents listed in the other textual order in the file
+                    out.append(("inherit/%s/%s-%s/order=%s/use=%s/decl-rev" % (kind, t1, t2, "".join(map(str, order)), use_ty), "".join(reversed(decls)) + body))
+    return out
+
+
 def run(chk):
     thorough = chk.tier == "thorough"
     ok = chk.build_harness()
@@ -165,6 +209,8 @@ def run(chk):
     rng = chk.rng
     cases = matrix()
     cases += arity_flows()
+    cases += interpolation_faults()
+    cases += inheritance_flows()
     flows = container_flows()
     cases += flows if thorough else [c for c in flows if c[0].endswith(("/def", "/param"))] + rng.sample(flows, 150)
     progs = [gen_prog.Gen(rng).program() for _ in range(120 if thorough else 25)]
